@@ -773,37 +773,32 @@ SCALE_SKIP_BIG = ("local_vulnerability", "arenas_betweenness",
 
 
 def _scale_perms(n):
-    """A dozen fixed permutations of range(n): from domains.perms_sample
-    (reversal, cyclic shift, multiplicative, transpositions with the last
-    node) plus block moves that bring high-numbered nodes to the front and
-    three scrambles."""
-    ps = [tuple(p) for p in perms_sample(n, full=False)]
+    """A dozen fixed permutations of range(n).  Same recipe as
+    domains.perms_sample (reversal, transpositions with the last node,
+    cyclic shift, multiplicative map) - that function enumerates all n!
+    permutations first and cannot be called for n > 9 - plus block moves
+    that bring high-numbered nodes to the front and three scrambles."""
     ident = tuple(range(n))
     out = []
 
     def add(p):
-        p = tuple(p)
+        p = tuple(int(x) for x in p)
         if sorted(p) == list(range(n)) and p != ident and p not in out:
             out.append(p)
-    add(ps[1])                                   # reversal
-    for p in ps[-2:]:                            # shift, multiplicative
+    add(reversed(range(n)))
+    add([(i + 1) % n for i in range(n)])
+    add([(i * 2 + 1) % n if n % 2 else (i + 2) % n for i in range(n)])
+    for i in (0, n // 2, n - 2):                 # transpositions with n-1
+        p = list(range(n))
+        p[i], p[n - 1] = p[n - 1], p[i]
         add(p)
-    tr = [p for p in ps[2:-2]]
-    for k in (0, len(tr) // 2, len(tr) - 1):     # (0 n-1), (n/2 n-1), ...
-        if tr:
-            add(tr[k])
     h = n // 2
     add(list(range(h, n)) + list(range(h)))      # second half to the front
     add(list(range(0, n, 2)) + list(range(1, n, 2)))
     add(list(range(n - 1, -1, -2)) + list(range(n - 2, -1, -2)))
-    for a, c in ((37, 11), (53, 5), (101, 3)):
-        k, x, seen, p = 0, c % n, set(), []
-        while len(p) < n:                        # LCG walk, skip repeats
-            if x not in seen:
-                seen.add(x)
-                p.append(x)
-            x = (x * a + c + k) % n
-            k += 1
+    for a, c in ((37, 11), (53, 5), (101, 3)):   # scrambles
+        p = sorted(range(n),
+                   key=lambda i: (((i * a + c) * (i + c)) % (7 * n + 1), i))
         add(p)
     return out[:12]
 
